@@ -17,10 +17,32 @@ pub struct GenHolidays {
     pub holidays: ContextHolidays,
 }
 
-fn to_calendar(set: &BTreeSet<NaiveDate>) -> CompactCalendar {
+/// The same set of dates inserted in increasing order, in decreasing order (every insertion then
+/// grows the calendar at its front) or from the middle outwards: equal calendars, possibly laid
+/// out differently in memory.
+fn to_calendar(set: &BTreeSet<NaiveDate>, order: u32) -> CompactCalendar {
     let mut cal = CompactCalendar::default();
-    for d in set {
-        cal.insert(*d);
+    let dates: Vec<NaiveDate> = set.iter().copied().collect();
+    match order {
+        0 => dates.iter().for_each(|d| {
+            cal.insert(*d);
+        }),
+        1 => dates.iter().rev().for_each(|d| {
+            cal.insert(*d);
+        }),
+        _ => {
+            let mid = dates.len() / 2;
+            for k in 0..dates.len() {
+                // mid, mid-1, mid+1, mid-2, ...
+                let i = if k % 2 == 0 { mid + k / 2 } else { mid.wrapping_sub(k / 2 + 1) };
+                if let Some(d) = dates.get(i) {
+                    cal.insert(*d);
+                }
+            }
+            for d in &dates {
+                cal.insert(*d);
+            }
+        }
     }
     cal
 }
@@ -34,7 +56,9 @@ pub fn describe(h: &GenHolidays) -> String {
 pub fn gen_holidays(ch: &mut Choices, base_year: i32) -> GenHolidays {
     let mut ph = BTreeSet::new();
     let mut sh = BTreeSet::new();
-    let origin = NaiveDate::from_ymd_opt(base_year.clamp(1901, 9990) - 1, 1, 1).unwrap();
+    // (for expressions around 1900 the calendars start in 1899: a shifted holiday selector looks
+    // at days before the supported range)
+    let origin = NaiveDate::from_ymd_opt(base_year.clamp(1900, 9990) - 1, 1, 1).unwrap();
     let span_days = 10 * 366;
     if ch.chance(75) {
         let n = ch.weighted(&[10, 30, 30, 30]);
@@ -67,6 +91,7 @@ pub fn gen_holidays(ch: &mut Choices, base_year: i32) -> GenHolidays {
             }
         }
     }
-    let holidays = ContextHolidays::new(Arc::new(to_calendar(&ph)), Arc::new(to_calendar(&sh)));
+    let order = ch.weighted(&[50, 25, 25]) as u32;
+    let holidays = ContextHolidays::new(Arc::new(to_calendar(&ph, order)), Arc::new(to_calendar(&sh, (order + 1) % 3)));
     GenHolidays { model: MCtx { ph, sh }, holidays }
 }
